@@ -109,7 +109,7 @@ func TestVerif_C11_TraceChild(t *testing.T) {
 		t.Fatal(err)
 	}
 	// an anonymous mapping, far away from the goroutine stack
-	mem, err := syscall.Mmap(-1, 0, 1<<16, syscall.PROT_READ|syscall.PROT_WRITE, syscall.MAP_ANON|syscall.MAP_PRIVATE)
+	mem, err := syscall.Mmap(-1, 0, 1<<18, syscall.PROT_READ|syscall.PROT_WRITE, syscall.MAP_ANON|syscall.MAP_PRIVATE)
 	if err != nil {
 		t.Fatal(err)
 	}
